@@ -135,7 +135,7 @@ def echo_program(r, hazards=None):
     return HEADER + "\n".join(lines + main) + "\n"
 
 
-def suffix_program(r):
+def suffix_program(r, terminating=False):
     """A helper that is called once (inlined with its labels when inlining is on) inside a host whose name is a
     suffix of the helper's name (pre_tick / tick, substep / step), next to calls of a function that stays a
     subroutine: '<host>end' must not be confused with '<helper>end'."""
@@ -172,6 +172,8 @@ def suffix_program(r):
     calls = [f"    {base}({_arg(r, [])})" if not ret or r.random() < 0.5 else f"    {cells.next()} = {base}({_arg(r, [])})" for _ in range(r.randint(2, 3))]
     calls += [f"    {hlp}({r.randint(1, 9)})" for _ in range(r.randint(0, 2))]
     r.shuffle(calls)
+    if terminating:
+        return HEADER + "\n".join(L + [c[4:] for c in calls]) + "\n"
     return HEADER + "\n".join(L + main + calls) + "\n"
 
 
